@@ -7,8 +7,8 @@ Import ListNotations.
 Open Scope Q_scope.
 
 (* the idx-th generated program (the harness knows the order: it is the translator's) *)
-Definition gen_prog (idx : nat) : prog := nth idx (map snd gen_table) (OutS (Cst 0)).
-Definition gen_count : nat := List.length gen_table.
+Definition gen_prog (idx : nat) : prog := nth idx gen_list (OutS (Cst 0)).
+Definition gen_count : nat := List.length gen_list.
 Definition run_gen (prims : nat -> Q -> Q) (idx : nat) (A : list (list Q)) (ci ks : list Q) : list (list Q) :=
   run_prog prims (gen_prog idx) A ci ks.
 
